@@ -1263,6 +1263,7 @@ func (p *Path) packResults(out []reflect.Value, fn *ssa.Function) Value {
 // natively when all their arguments are concrete.
 var nativeFuncs = map[string]reflect.Value{
 	"time.Parse":               reflect.ValueOf(time.Parse),
+	"time.ParseInLocation":     reflect.ValueOf(time.ParseInLocation),
 	"time.Date":                reflect.ValueOf(time.Date),
 	"time.Now":                 reflect.ValueOf(fixedNow),
 	"time.FixedZone":           reflect.ValueOf(time.FixedZone),
